@@ -11,6 +11,7 @@ import (
 	"verif/harness/internal/core"
 	"verif/harness/internal/graph"
 	"verif/harness/internal/sched"
+	"verif/harness/internal/taskrun"
 )
 
 type engine func(env *core.Env, rep *core.Report) *core.Result
@@ -18,6 +19,7 @@ type engine func(env *core.Env, rep *core.Report) *core.Result
 var engines = map[string]engine{
 	"C01": sched.Check, "C02": sched.Check, "C03": c03, "C04": sched.Check,
 	"C05": graph.Check,
+	"C06": taskrun.CheckC06, "C07": taskrun.CheckC07,
 	"C12": cancel.Check,
 }
 
